@@ -269,7 +269,10 @@ def require_all(
             which chain composition propagates rather than swallowing.
         inner: The credential that establishes caller identity. When ``None``
             the gate alone authenticates — "only my proxy may call this
-            worker", with user identity handled upstream.
+            worker", with user identity handled upstream. A gate that passes
+            a request it could not verify (claims ``verified == "false"``,
+            the proof gate's ``allow`` mode) authenticates nothing: that
+            request gets the anonymous identity.
 
     Returns:
         A callback ``(falcon.Request) -> AuthContext`` suitable for
@@ -282,6 +285,15 @@ def require_all(
     def authenticate(req: falcon.Request) -> AuthContext:
         claims = gate(req)
         if inner is None:
+            if claims.get("verified") == "false":
+                # A gate that records a failure without denying (``allow``
+                # mode) has not vouched for the request, so it proceeds as
+                # an anonymous one, carrying only the gate's record.
+                return AuthContext(
+                    domain=None,
+                    authenticated=False,
+                    claims={gate.claims_key: claims},
+                )
             return AuthContext(
                 domain=gate.name,
                 authenticated=True,
